@@ -121,6 +121,8 @@ class QueueAnalysis:
                 chk.require(ok2, rid_fifo, b.defp + ":retry-only-on-miss", b.span,
                             "pop retries although the ticket's order was found", describe_path(r))
                 continue
+            if r.kind == "unreachable":
+                continue    # pruned: syntactically contradictory alternative
             if r.kind != "return":
                 chk.fail(rid_term, b.defp + ":exit-%s" % r.kind, b.span, "pop has a %s path" % r.kind, describe_path(r))
                 continue
@@ -140,17 +142,11 @@ class QueueAnalysis:
                 # the removed key is the ticket just popped
                 if rem and tk:
                     kref = rem[-1][2][1]
-                    kval = r.state and None
                     tpay = ("field", tk[-1][3], "Some", "0")
-                    # key argument is a reference to a local holding the ticket payload
-                    okk = False
-                    if isinstance(kref, tuple) and kref[0] == "ref":
-                        try:
-                            from .walk import Walker
-                            kv = self.walker()._read(r.state, kref[1])
-                            okk = kv == tpay
-                        except Exception:
-                            okk = False
+                    # key argument as seen at call time (a reference to a local holding the ticket payload)
+                    kv = rem[-1][7][1] if len(rem[-1]) > 7 else None
+                    kv = kv[1] if isinstance(kv, tuple) and kv[0] == "refval" else kv
+                    okk = kv == tpay
                     chk.require(okk, rid_fifo, b.defp + ":removes-popped-ticket", b.span,
                                 "pop removes key %s, not the ticket it just took" % short(kref), describe_path(r))
                 others = [e for e in mp if e[1] not in (("MAP.remove", "MAP.get") if seq else ("MAP.remove",))]
@@ -339,6 +335,22 @@ class QueueAnalysis:
                     return False, "sort key is %s, not the order's timestamp" % short(val)
                 if "param" not in repr(val[1]) :
                     return False, "sort key is not taken from the element"
+            elif isinstance(val, tuple) and val[0] == "agg" and val[1].endswith("Ordering"):
+                # `a.timestamp().cmp(&b.timestamp())` with the integer comparison modelled: the facts of the path decide
+                def is_ts(x, param):
+                    return isinstance(x, tuple) and x[0] == "field" and x[3] == ts.get(x[2]) and ("param", param) in set(subterms(x))
+                found = False
+                for atom, pol in r.facts.order:
+                    if atom[0] in ("lt", "eq") and pol is True:
+                        a_, b_ = atom[1], atom[2]
+                        if val[2] == "Less" and atom[0] == "lt" and is_ts(a_, 2) and is_ts(b_, 3):
+                            found = True
+                        if val[2] == "Greater" and atom[0] == "lt" and is_ts(a_, 3) and is_ts(b_, 2):
+                            found = True
+                        if val[2] == "Equal" and atom[0] == "eq" and ((is_ts(a_, 2) and is_ts(b_, 3)) or (is_ts(a_, 3) and is_ts(b_, 2))):
+                            found = True
+                if not found:
+                    return False, "comparator returns %s on a path that does not compare the two timestamps ascending" % val[2]
             else:
                 s = short(val)
                 if not (isinstance(val, tuple) and val[0] == "call" and val[1].endswith("cmp")):
